@@ -49,6 +49,7 @@ def run(ctx):
     subscripts(ctx, cg, ef, entries)
     discarded_exceptions(ctx, cg, entries + [parser_entry])
     handler_argument_subscripts(ctx, cg, ef, entries)
+    none_and_empty_guards(ctx)
     eval_closure(ctx)
     from . import c15
     c15.membership_gate(ctx)
@@ -488,3 +489,68 @@ def handler_argument_subscripts(ctx, cg, ef, entries):
                             res.finding('R-EFF.handler-args', g_.fq, f"`{short(r.node, 50)}` carries a message: {f.qualname} catches it and reads {h.name}.args[{need - 1}]",
                                         f"constructed with {nargs} argument(s); guards {guards}: IndexError ('tuple index out of range') instead of the rejection", key=key, line=r.node.lineno)
     res.extra['raise_sites_reaching_args_subscripts'] = n
+
+
+# ---------------------------------------------------------------------------------------------- None / empty guards
+def none_and_empty_guards(ctx):
+    sm, res = ctx.sm, ctx.res
+    res.rule('R-DOM.none-guard', "in the public element operations a dereference of the optional container (absent for types without child content) is dominated by a "
+             "test of its existence; a subscript of a possibly empty match list is dominated by an emptiness test that raises; the replacement is type-checked "
+             "before the first mutation")
+    xe = sm.get_class('XMLElement', T.M_XMLELEMENT)
+    n_deref = 0
+    for name in ('add_child', 'get_children', '_final_checks', 'possible_children_names', 'to_string', 'remove', 'replace_child', 'find_child', 'find_children'):
+        f = xe.methods.get(name)
+        if f is None:
+            continue
+        g = cfg_of(f.node)
+        for n in g.stmt_nodes():
+            derefs = [x for e in n.exprs() for x in walk_local(e) if isinstance(x, ast.Attribute) and isinstance(x.value, ast.Attribute) and
+                      unparse(x.value) in ('self._child_container_tree', 'self.child_container_tree')]
+            if not derefs:
+                continue
+            n_deref += 1
+            ok = False
+            for t, lab in dom.guards_of(g, n):
+                if t.kind != 'test':
+                    continue
+                txt = unparse(t.ast)
+                if txt in ('self._child_container_tree', 'self.child_container_tree') and lab == 'T':
+                    ok = True
+                if txt in ('not self._child_container_tree', 'not self.child_container_tree', 'self._child_container_tree is None') and lab == 'F':
+                    ok = True
+            res.check(ok, 'R-DOM.none-guard', f.fq, f"`{short(derefs[0], 60)}` is reached only when the container exists",
+                      fail_detail="for an element type without child content the container is None: AttributeError on None instead of a documented rejection",
+                      key=f"R-DOM.none-guard|container|{f.name}", line=n.line)
+    res.floor('R-DOM.none-guard container dereferences', n_deref, 3)
+    # add_child: the missing container is rejected with the documented exception
+    f = xe.methods['add_child']
+    g = cfg_of(f.node)
+    rj = [n for n in g.stmt_nodes() if n.kind == 'stmt' and isinstance(n.ast, ast.Raise) and 'XMLElementCannotHaveChildrenError' in unparse(n.ast)]
+    ok = any(any(t.kind == 'test' and unparse(t.ast) in ('not self._child_container_tree', 'self._child_container_tree is None') and lab == 'T' for t, lab in dom.guards_of(g, r)) for r in rj)
+    res.check(ok, 'R-DOM.none-guard', f.fq, "a checked element without a container rejects children with XMLElementCannotHaveChildrenError", key='R-DOM.none-guard|cannot-have-children')
+    # replace_child: emptiness test before the subscript, type check before the first mutation
+    f = xe.methods['replace_child']
+    g = cfg_of(f.node)
+    subs = [n for n in g.stmt_nodes() if any(isinstance(x, ast.Subscript) and isinstance(x.value, ast.Name) and isinstance(x.ctx, ast.Load) and
+                                             any(isinstance(d.ast, ast.Assign) and isinstance(d.ast.value, ast.ListComp) for d in dom.assignments_to(g, x.value.id))
+                                             for e in n.exprs() for x in walk_local(e))]
+    for n in subs:
+        x = [x for e in n.exprs() for x in walk_local(e) if isinstance(x, ast.Subscript) and isinstance(x.value, ast.Name)][0]
+        lst = x.value.id
+        gate = [t for t in g.stmt_nodes() if t.kind == 'test' and unparse(t.ast) in (f"not {lst}", f"len({lst}) == 0") and dom.branch_raises(g, t, 'T')]
+        res.check(bool(gate) and g.path_avoiding(g.entry, n, avoid=gate) is None, 'R-DOM.none-guard', f.fq,
+                  f"`{short(x, 40)}` is dominated by `if not {lst}: raise ValueError`", key='R-DOM.none-guard|empty-matches', line=n.line)
+    new = f.params[2]
+    tc = dom.nodes_calling(g, lambda c: unparse(c.func) == 'self._check_child_to_be_added' and [unparse(a) for a in c.args] == [new])
+    muts = [n for n in g.stmt_nodes() if any(isinstance(c, ast.Call) and isinstance(c.func, ast.Attribute) and c.func.attr in ('remove', 'insert', 'append') and
+                                             unparse(c.func.value) == 'self._unordered_children' for e in n.exprs() for c in walk_local(e))]
+    res.check(bool(tc) and all(g.path_avoiding(g.entry, m, avoid=tc) is None for m in muts), 'R-DOM.none-guard', f.fq,
+              "the replacement is type-checked (TypeError for a non-element) before the insertion list changes", key='R-DOM.none-guard|replace-type-check')
+    ck = xe.methods.get('_check_child_to_be_added')
+    ok = False
+    if ck is not None:
+        g2 = cfg_of(ck.node)
+        for r in [n for n in g2.stmt_nodes() if n.kind == 'stmt' and isinstance(n.ast, ast.Raise) and 'TypeError' in unparse(n.ast)]:
+            ok = ok or any(t.kind == 'test' and unparse(t.ast) == f"not isinstance({ck.params[1]}, XMLElement)" and lab == 'T' for t, lab in dom.guards_of(g2, r))
+    res.check(ok, 'R-DOM.none-guard', ck.fq if ck else xe.module.relpath, "a non-element is rejected with TypeError", key='R-DOM.none-guard|type-check-body')
